@@ -10,7 +10,9 @@ namespace Ro.Driver
 
 def handlers : List (String × (Case → String)) := [
   ("op", Drivers.Op.run),
-  ("multi", Drivers.Multi.run)
+  ("multi", Drivers.Multi.run),
+  ("multimicro", Drivers.Multi.runMicro),
+  ("multipark", Drivers.Multi.runMicro)
 ]
 
 def runCase (c : Case) : String :=
